@@ -44,6 +44,11 @@ def wellformed_towers(rng) -> t.Tuple[list, t.Optional[int]]:
                     lhs, rhs = b"", bytes(4)
                 else:
                     lhs, rhs = bytes(rng.randrange(256) for _ in range(rng.randrange(0, 9))), bytes(rng.randrange(256) for _ in range(rng.randrange(0, 12)))
+                if proto in (0x0D, 0x0B, 0x09) and rng.random() < 0.25:
+                    # the same protocol identifiers with payloads of another size (a 16-byte address, a 4-byte minor version, extra lhs bytes)
+                    lhs, rhs = lhs + bytes(rng.randrange(0, 3)), bytes(rng.randrange(256) for _ in range(rng.choice((0, 1, 3, 4, 6, 16))))
+                    if proto == 0x0D and len(lhs) < 18:
+                        lhs = lhs.ljust(18, b"\x01")
                 floors.append((proto, lhs, rhs))
         towers.append(floors)
         if expect is None and tcp_at is not None:
